@@ -141,7 +141,7 @@ def main(argv):
     _CTX.update(chk=chk, plain=plain, drv=drv, disk=disk)
     c09._CTX.update(chk=chk, plain=plain, drv=drv, disk=disk)
     quick = chk.tier == "quick"
-    scripts = [("single-small", c09.script_single("small"))]
+    scripts = [("single-small", c09.script_single("small")), ("single-bigmeta", c09.script_single("bigmeta"))]
     if not quick:
         scripts.append(("single-autoflush", c09.script_single("autoflush")))
     modes = ["direct", "tmp-tmpfs"] + ([] if quick else ["tmp-disk"])
